@@ -89,6 +89,16 @@ CHECKS = {
    text="Generated-input search. For generated files with 2-6 top-level items and file-wide unique, unshared state-variable names, and for the 28 detectors other than the two SafeMath ones, the findings of the file must equal the union of the findings of the file with everything but one item (and the pragmas) blanked out. Exploration.",
    note="Trusted: item extents from the parser's locations; the blanked files are re-parsed (self-check).",
    design="DESIGN.md section 5 C19"),
+ "C14": dict(
+   technique="property-based testing: generated configurations (name subsets, orders, casings, unknown names, --path/--toml/./contracts presence) against a selection and precedence model, through the library and the binary",
+   text="Generated-input search. Library level: every documented name (read from the docs tables and Solstat.toml at check time) in 15 casings must be accepted and select the pattern of that name, names are injective, every default pattern has a documented name, near-miss and foreign-category names are rejected. Binary level: generated toml files and flag combinations on three marker directories holding a corpus where the patterns fire; exit status, absence of a report for unknown names, the analysed directory (by marker file names) and the set of pattern sections (selected intersected with firing) are checked. Exploration.",
+   note="Trusted: the hand-written name->pattern table in harness/src/patterns.rs, the report parser, the corpus' firing set computed by library analysis.",
+   design="DESIGN.md section 5 C14"),
+ "C18": dict(
+   technique="property-based testing over run histories with file-system snapshots as invariant and a fresh-directory run as differential oracle",
+   text="Generated-input search over histories of 1-3 runs of the binary with generated trees, four kinds of working directory (separate, parent with default ./contracts, the analysed directory itself, a sub-directory of it), four kinds of pre-existing report and optional edits between runs; byte snapshots of the analysed tree and working directory before/after each run must be identical except for cwd/solstat_report.md, whose bytes must equal the report of a run on the same tree from a fresh directory. Exploration.",
+   note="Trusted: deterministic report (C13), tmpfs scratch area private to the harness.",
+   design="DESIGN.md section 5 C18"),
 }
 
 NOT_YET = {
